@@ -61,6 +61,9 @@ func (s *State) ParseConfig(data []byte, fName string) (
 
 func checkRaw(c *PanConfig) error {
 	re := regexp.MustCompile(`^r\d`)
+	if c.Devices == nil {
+		return nil
+	}
 	for _, d := range c.Devices.Entries {
 		for _, v := range d.Vsys {
 			for _, r := range v.Rules {
